@@ -87,641 +87,6 @@ def _sole_assign(func, name):
     return outs
 
 
-def r191(ctx, repo):
-    gc = canon(repo, HU, repo.func(HU, "HTTPFile.get_cache_chunk"),
-               keep=("download_range",))
-    idx = gc.args.args[1].arg
-    res = _sym_resolver({"self._chunk_size": "c", "self.length": "L",
-                         idx: "k"})
-    k, c = ratfun(ast.parse("k").body[0].value, lambda n: None if not
-                  isinstance(n, ast.Name) else n.id), None
-    K = Rat.__new__(Rat)
-    from ..absval import Poly
-    K = Rat(Poly.sym("k"))
-    C = Rat(Poly.sym("c"))
-    ONE = Rat(Poly.const(1))
-    # call of download_range(start, stop)
-    dl = find_calls(gc, attr="download_range")
-    if len(dl) != 1:
-        raise AnalysisError("get_cache_chunk: download_range call lost")
-    a_start, a_stop = dl[0].args[0], dl[0].args[1]
-
-    def value_of(e):
-        if isinstance(e, ast.Name):
-            d = _sole_assign(gc, e.id)
-            if len(d) == 1:
-                return value_of(d[0].value) if isinstance(
-                    d[0].value, (ast.Name, ast.Attribute)) else d[0].value
-        if isinstance(e, ast.Attribute) and isinstance(e.value, ast.Name):
-            # field of a module-level namedtuple built from a local
-            d = _sole_assign(gc, e.value.id)
-            if len(d) == 1 and isinstance(d[0].value, ast.Call) \
-                    and isinstance(d[0].value.func, ast.Name):
-                fields = _namedtuple_fields(repo, HU, d[0].value.func.id)
-                if fields and e.attr in fields:
-                    i = fields.index(e.attr)
-                    c_ = d[0].value
-                    if i < len(c_.args):
-                        return value_of(c_.args[i])
-                    for kw in c_.keywords:
-                        if kw.arg == e.attr:
-                            return value_of(kw.value)
-        if isinstance(e, ast.Subscript) and isinstance(e.value, ast.Name) \
-                and isinstance(e.slice, ast.Constant) and isinstance(
-                    e.slice.value, int):
-            d = _sole_assign(gc, e.value.id)
-            if len(d) == 1 and isinstance(d[0].value, (ast.Tuple, ast.Call)):
-                els = d[0].value.elts if isinstance(
-                    d[0].value, ast.Tuple) else (
-                    d[0].value.args if _namedtuple_fields(
-                        repo, HU, getattr(d[0].value.func, "id", "")) else [])
-                if 0 <= e.slice.value < len(els):
-                    return value_of(els[e.slice.value])
-        return e
-    vs, ve = value_of(a_start), value_of(a_stop)
-    ok = False
-    try:
-        ok = _same(ratfun(vs, res), K * C)
-    except AnalysisError:
-        ok = False
-    ctx.ob("R19.1", ok, "chunk k starts at k·chunk_size" if ok else
-           f"chunk start is `{short(vs, 40)}`, not index·chunk_size",
-           node=dl[0], label="chunk start")
-    ok = False
-    if isinstance(ve, ast.Call) and call_name(ve) == "min" \
-            and len(ve.args) == 2:
-        forms = []
-        for a in ve.args:
-            try:
-                forms.append(ratfun(a, res))
-            except AnalysisError:
-                forms.append(None)
-        want_end = (K + ONE) * C
-        L = Rat(Poly.sym("L"))
-        ok = any(f is not None and _same(f, want_end) for f in forms) \
-            and any(f is not None and _same(f, L) for f in forms)
-    ctx.ob("R19.1", ok, "chunk k ends at min((k+1)·chunk_size, length)"
-           if ok else f"chunk end is `{short(ve, 50)}`, not "
-           f"min((index+1)·chunk_size, length)", node=dl[0],
-           label="chunk end clamped")
-    # store under the requested index
-    st = [n for n in walk(gc) if isinstance(n, ast.Assign)
-          and isinstance(n.targets[0], ast.Subscript)
-          and is_self_attr(n.targets[0].value, "cache")]
-    ok = len(st) == 1 and txt(st[0].targets[0].slice) == idx and any(
-        c is dl[0] for c in ast.walk(st[0].value))
-    ctx.ob("R19.1", ok, "the downloaded range is stored under its chunk "
-           "index" if ok else "downloaded chunk stored under another key",
-           node=st[0] if st else gc, label="chunk stored under index")
-    # Range header in both siblings
-    for rel, q in ((HU, "HTTPFile.download_range"),
-                   (S3, "S3File.download_range")):
-        f = canon(repo, rel, repo.func(rel, q))
-        a0, a1 = f.args.args[1].arg, f.args.args[2].arg
-        js = [n for n in walk(f) if isinstance(n, ast.JoinedStr)
-              and any(isinstance(v, ast.Constant) and "bytes=" in str(v.value)
-                      for v in n.values)]
-        ok = False
-        why = "Range header string not found"
-        if js:
-            vals = js[0].values
-            consts = [v.value for v in vals if isinstance(v, ast.Constant)]
-            fmts = [v.value for v in vals
-                    if isinstance(v, ast.FormattedValue)]
-            r2 = _sym_resolver({})
-            try:
-                first = ratfun(ast.parse(expand_locals(f, fmts[0]),
-                                         mode="eval").body, r2)
-                second = ratfun(ast.parse(expand_locals(f, fmts[1]),
-                                          mode="eval").body, r2)
-                S = Rat(Poly.sym(a0))
-                E = Rat(Poly.sym(a1))
-                ok = (consts == ["bytes=", "-"] and len(fmts) == 2
-                      and _same(first, S) and _same(second, E - ONE))
-                why = (f"header is bytes={{{expand_locals(f, fmts[0])}}}-"
-                       f"{{{expand_locals(f, fmts[1])}}}")
-            except (AnalysisError, IndexError):
-                why = "Range header has an unexpected shape"
-        ctx.ob("R19.1", ok,
-               f"{q}: exclusive stop is sent as inclusive `stop-1`" if ok
-               else f"{q}: {why} – expected bytes={{start}}-{{stop-1}}",
-               node=js[0] if js else f, label="range header")
-        # a short-cut that returns without downloading may only apply to
-        # empty ranges (stop <= start): evaluated on small integer pairs
-        from ..absval import eval_pred
-        from ..cfg import CFG, branch_facts
-        rets = [n for n in walk(f) if isinstance(n, ast.Return)
-                and isinstance(n.value, ast.Constant)
-                and isinstance(n.value.value, (bytes, str))]
-        for r in rets:
-            conds = []
-            n = r
-            while getattr(n, "parent", None) is not None and n.parent is not f:
-                par = n.parent
-                if isinstance(par, ast.If):
-                    conds.append((par.test, n in par.body))
-                n = par
-            bad = None
-            if not conds:
-                bad = "unconditional"
-            for st_ in range(0, 4):
-                for sp_ in range(0, 5):
-                    if bad:
-                        break
-                    env = {a0: st_, a1: sp_}
-                    try:
-                        taken = all(bool(eval_pred(ast.parse(
-                            expand_locals(f, t), mode="eval").body, env))
-                            == pol for t, pol in conds)
-                    except AnalysisError:
-                        raise AnalysisError(
-                            f"{q}: cannot evaluate the short-cut condition "
-                            f"`{short(conds[0][0], 40)}`")
-                    if taken and sp_ > st_:
-                        bad = f"start={st_}, stop={sp_}"
-            ctx.ob("R19.1", bad is None,
-                   f"{q}: the no-download short-cut applies to empty ranges "
-                   f"only" if bad is None else
-                   f"{q}: returns {r.value.value!r} without downloading for "
-                   f"the non-empty range {bad}", node=r,
-                   label="short-cut only for empty ranges")
-    # read_range_cached
-    rr = canon(repo, HU, repo.func(HU, "HTTPFile.read_range_cached"),
-               keep=("get_cache_chunk", "download_range"))
-    p_start, p_stop = rr.args.args[1].arg, rr.args.args[2].arg
-    loops = [n for n in walk(rr) if isinstance(n, ast.For)
-             and isinstance(n.iter, ast.Call) and call_name(n.iter) == "range"]
-    if len(loops) != 1:
-        raise AnalysisError("read_range_cached: chunk loop lost")
-    lp = loops[0]
-    lo, hi = lp.iter.args[0], lp.iter.args[1]
-
-    def floordiv_of(e, num):
-        """`e` is `num // chunk_size` + const (in any association, through
-        single-assignment locals defined before the loop and np.int64/int
-        wrappers) -> the constant, else None"""
-        class Pre(ast.NodeTransformer):
-            def visit_Name(self, node):
-                if isinstance(node.ctx, ast.Load):
-                    inside = {id(x) for x in ast.walk(lp)}
-                    d = [x for x in _sole_assign(rr, node.id)
-                         if id(x) not in inside and x.lineno <= lp.lineno]
-                    if len(d) == 1:
-                        return self.visit(ast.parse(
-                            "(" + txt(d[0].value) + ")", mode="eval").body)
-                return node
-        cur = Pre().visit(ast.parse(txt(e), mode="eval").body)
-
-        def res(node):
-            if isinstance(node, ast.Call) and call_name(node) in (
-                    "np.int64", "int", "np.uint64") and node.args:
-                return ratfun(node.args[0], res)
-            if isinstance(node, ast.BinOp) and isinstance(
-                    node.op, ast.FloorDiv):
-                if txt(node.left) == num and txt(
-                        node.right) == "self._chunk_size":
-                    return "FD"
-                return "FD_other_" + txt(node)
-            if isinstance(node, ast.Name):
-                return node.id
-            return None
-        try:
-            r = ratfun(cur, res)
-        except AnalysisError:
-            return None
-        diff = r - Rat(Poly.sym("FD"))
-        m = diff.monomial() if not diff.n.is_zero() else ({}, 0)
-        if m is None:
-            return None
-        exps, coef = m
-        if exps:
-            return None
-        return int(coef) if coef == int(coef) else None
-    a = floordiv_of(lo, p_start)
-    b = floordiv_of(hi, p_stop)
-    ctx.ob("R19.1", a == 0, "first chunk index is start // chunk_size"
-           if a == 0 else f"first chunk index is `{short(lo, 30)}`",
-           node=lp, label="first chunk index")
-    ctx.ob("R19.1", b == 1, "last chunk index is stop // chunk_size "
-           "(range end exclusive: +1)" if b == 1 else
-           f"chunk index range ends at `{short(hi, 30)}` – expected "
-           f"stop // chunk_size + 1", node=lp, label="last chunk index")
-    # offsets
-    body_assign = {n.targets[0].id: n.value for n in walk(lp)
-                   if isinstance(n, ast.Assign)
-                   and isinstance(n.targets[0], ast.Name)}
-    pos_names = [n.targets[0].id for n in walk(rr) if isinstance(
-        n, ast.Assign) and isinstance(n.targets[0], ast.Name)
-        and txt(n.value) == p_start and n.lineno < lp.lineno]
-    toread_names = [n.targets[0].id for n in walk(rr) if isinstance(
-        n, ast.Assign) and isinstance(n.targets[0], ast.Name)
-        and txt(n.value) == f"{p_stop} - {p_start}"]
-    if not pos_names or not toread_names:
-        raise AnalysisError("read_range_cached: pos/toread bindings lost")
-    pos, toread = pos_names[0], toread_names[0]
-    off = [k for k, v in body_assign.items() if isinstance(v, ast.BinOp)
-           and isinstance(v.op, ast.Mod) and txt(v.left) == pos
-           and txt(v.right) == "self._chunk_size"]
-    ctx.ob("R19.1", len(off) == 1, "offset inside a chunk is pos % "
-           "chunk_size" if len(off) == 1 else
-           "offset inside a chunk is not pos % chunk_size", node=lp,
-           label="in-chunk offset")
-    if len(off) != 1:
-        return
-    off = off[0]
-    # the branch that takes the rest of the chunk
-    ifs = [n for n in walk(lp) if isinstance(n, ast.If)]
-    rest = None
-    for n in ifs:
-        for cand in [n]:
-            t = cand.test
-            if isinstance(t, ast.Compare) and len(t.ops) == 1 \
-                    and names_in(t) >= {off, toread}:
-                rest = cand
-    if rest is None:
-        raise AnalysisError("read_range_cached: rest-of-chunk branch lost")
-    t = rest.test
-    res3 = _sym_resolver({"self._chunk_size": "c"})
-    try:
-        lhs = ratfun(t.left, res3)
-        rhs = ratfun(t.comparators[0], res3)
-        want_l = Rat(Poly.sym(off)) + Rat(Poly.sym(toread))
-        ok = (_same(lhs, want_l) and _same(rhs, C) and isinstance(
-            t.ops[0], ast.GtE)) or (
-            _same(rhs, want_l) and _same(lhs, C) and isinstance(
-                t.ops[0], ast.LtE))
-    except AnalysisError:
-        ok = False
-    ctx.ob("R19.1", ok, "the rest of the chunk is taken when offset + "
-           "remaining >= chunk_size" if ok else
-           f"boundary test is `{short(t, 50)}` – expected offset + remaining "
-           f">= chunk_size (a request ending exactly on a chunk boundary "
-           f"must take the rest of the chunk)", node=rest,
-           label="chunk boundary test")
-
-    accs = set()
-
-    def branch_facts_of(body):
-        sl = None
-        consumed = None
-        for n in body:
-            for x in ast.walk(n):
-                if isinstance(x, ast.AugAssign) and isinstance(
-                        x.op, ast.Add) and isinstance(x.value, ast.Subscript):
-                    sl = x.value.slice
-                    accs.add(("concat", txt(x.target)))
-                elif isinstance(x, ast.Call) and last_attr(x) == "append" \
-                        and len(x.args) == 1 and isinstance(
-                            x.args[0], ast.Subscript):
-                    # pieces collected in a list, joined at the end
-                    sl = x.args[0].slice
-                    accs.add(("list", txt(x.func.value)))
-                elif isinstance(x, ast.Assign) and isinstance(
-                        x.value, ast.BinOp) and isinstance(
-                        x.value.op, ast.Add) and isinstance(
-                        x.value.right, ast.Subscript) and txt(
-                        x.value.left) == txt(x.targets[0]):
-                    sl = x.value.right.slice
-                    accs.add(("concat", txt(x.targets[0])))
-            if isinstance(n, ast.Assign) and isinstance(
-                    n.targets[0], ast.Name) and isinstance(
-                    n.value, ast.BinOp) and isinstance(n.value.op, ast.Sub):
-                consumed = n
-        return sl, consumed
-    sl1, cons1 = branch_facts_of(rest.body)
-    ok = (isinstance(sl1, ast.Slice) and txt(sl1.lower) == off
-          and sl1.upper is None and cons1 is not None
-          and txt(cons1.value) == f"self._chunk_size - {off}")
-    ctx.ob("R19.1", ok, "rest-of-chunk branch takes chunk[offset:] and "
-           "consumes chunk_size - offset" if ok else
-           "rest-of-chunk branch slices or counts differently", node=rest,
-           label="rest-of-chunk slice")
-    sl2, cons2 = branch_facts_of(rest.orelse)
-    end_names = [k for k, v in body_assign.items() if isinstance(
-        v, ast.BinOp) and isinstance(v.op, ast.Mod) and txt(
-        v.left) == p_stop and txt(v.right) == "self._chunk_size"]
-    ok = (isinstance(sl2, ast.Slice) and txt(sl2.lower) == off
-          and end_names and txt(sl2.upper) == end_names[0]
-          and cons2 is not None
-          and txt(cons2.value) == f"{end_names[0]} - {off}")
-    ctx.ob("R19.1", bool(ok), "final partial chunk takes "
-           "chunk[offset:stop % chunk_size] and consumes the difference"
-           if ok else "final partial chunk slices or counts differently",
-           node=rest, label="partial-chunk slice")
-    # what is returned is the concatenation of the pieces
-    rets = [n for n in walk(rr) if isinstance(n, ast.Return)]
-    ok = len(accs) == 1 and bool(rets)
-    for r_ in rets:
-        kind, nm = list(accs)[0] if len(accs) == 1 else (None, None)
-        v = r_.value
-        if kind == "concat":
-            ok = ok and v is not None and txt(v) == nm
-        elif kind == "list":
-            ok = ok and isinstance(v, ast.Call) and last_attr(v) == "join" \
-                and len(v.args) == 1 and txt(v.args[0]) == nm \
-                and isinstance(v.func.value, ast.Constant) \
-                and v.func.value.value == b""
-        else:
-            ok = False
-    ctx.ob("R19.1", bool(ok), "the result is the concatenation of the pieces "
-           "in loop order" if ok else
-           "the pieces taken from the chunks are not what is returned",
-           node=rets[0] if rets else rr, label="result is concatenation")
-    cname = cons1.targets[0].id if cons1 is not None else None
-    upd = {txt(n.target): (type(n.op).__name__, txt(n.value))
-           for n in walk(lp) if isinstance(n, ast.AugAssign)
-           and isinstance(n.target, ast.Name)}
-    ok = upd.get(toread) == ("Sub", cname) and upd.get(pos) == ("Add", cname)
-    ctx.ob("R19.1", ok, "remaining count and position move by the same "
-           "amount per chunk" if ok else
-           "remaining count / position are not updated consistently",
-           node=lp, label="consistent progress")
-    # every chunk comes through the cache
-    src = [n for n in walk(lp) if isinstance(n, ast.Assign) and isinstance(
-        n.value, ast.Call) and last_attr(n.value) == "get_cache_chunk"]
-    ok = len(src) == 1 and txt(src[0].value.args[0]) == txt(lp.target)
-    ctx.ob("R19.1", ok, "each chunk is obtained through get_cache_chunk("
-           "loop index)" if ok else "chunk not obtained through the cache "
-           "with the loop index", node=lp, label="chunk via cache")
-
-
-def r192(ctx, repo):
-    gc = repo.func(HU, "HTTPFile.get_cache_chunk")
-    idx = gc.args.args[1].arg
-    rets = [n for n in walk(gc) if isinstance(n, ast.Return)]
-    evict = [c for c in find_calls(gc, attr="pop")
-             if is_self_attr(c.func.value, "cache")] + [
-        n for n in walk(gc) if isinstance(n, ast.Delete)
-        and "self.cache" in txt(n)]
-    if not rets or not evict:
-        raise AnalysisError("get_cache_chunk: return / eviction lost")
-    ev = evict[0]
-    ev_line = ev.lineno
-    for r in rets:
-        v = r.value
-        safe = False
-        how = ""
-        if isinstance(v, ast.Name):
-            defs = _sole_assign(gc, v.id)
-            if defs and all(d.lineno < ev_line for d in defs) and all(
-                    isinstance(d.value, ast.Subscript) and is_self_attr(
-                        d.value.value, "cache")
-                    and txt(d.value.slice) == idx for d in defs):
-                safe = True
-                how = "the chunk is bound before the eviction"
-        ctx.ob("R19.2", safe, how if safe else
-               "`return self.cache[index]` after an eviction that may remove "
-               "`index` (keep_chunks=1: KeyError)", node=r,
-               label="returned chunk survives eviction")
-    # the eviction may exclude nothing but chunk 0: excluding the requested
-    # chunk as well leaves nothing to evict for keep_chunks=1 and the cache
-    # then holds more chunks than configured, for good
-    def victim_conditions():
-        """comparisons that restrict which key is evicted, with the name of
-        the candidate-key variable: [(Compare, var)]"""
-        arg = None
-        if isinstance(ev, ast.Call) and ev.args:
-            arg = ev.args[0]
-        elif isinstance(ev, ast.Delete) and isinstance(
-                ev.targets[0], ast.Subscript):
-            arg = ev.targets[0].slice
-        if arg is None:
-            raise AnalysisError("get_cache_chunk: eviction victim not found")
-
-        def over_cache(it):
-            t = txt(it)
-            return t in ("self.cache", "self.cache.keys()",
-                         "list(self.cache)", "list(self.cache.keys())",
-                         "tuple(self.cache)", "tuple(self.cache.keys())")
-        if isinstance(arg, ast.Name):
-            # loop variable of a for-loop over the cache keys
-            n_ = ev
-            conds = []
-            while n_ is not None and not isinstance(n_, ast.FunctionDef):
-                if isinstance(n_, ast.If):
-                    conds += [(c_, arg.id) for c_ in ast.walk(n_.test)
-                              if isinstance(c_, ast.Compare)
-                              and arg.id in names_in(c_)]
-                if isinstance(n_, ast.For) and isinstance(
-                        n_.target, ast.Name) and n_.target.id == arg.id:
-                    if not over_cache(n_.iter):
-                        raise AnalysisError(
-                            "get_cache_chunk: eviction loop does not iterate "
-                            "the cache keys")
-                    return conds
-                n_ = getattr(n_, "parent", None)
-            # a local bound once to next(iter(...)) / <list>[0]
-            d_ = _sole_assign(gc, arg.id)
-            if len(d_) == 1:
-                return from_expr(d_[0].value)
-            raise AnalysisError("get_cache_chunk: eviction victim "
-                                f"`{arg.id}` not understood")
-        return from_expr(arg)
-
-    def from_expr(e):
-        # <candidates>[0] / next(iter(<candidates>)) with candidates a
-        # comprehension over the cache keys (directly or through a local)
-        cand = None
-        if isinstance(e, ast.Subscript) and txt(e.slice) == "0":
-            cand = e.value
-        elif isinstance(e, ast.Call) and call_name(e) == "next" and e.args:
-            cand = e.args[0]
-            if isinstance(cand, ast.Call) and call_name(cand) == "iter" \
-                    and cand.args:
-                cand = cand.args[0]
-        if isinstance(cand, ast.Name):
-            d_ = _sole_assign(gc, cand.id)
-            cand = d_[0].value if len(d_) == 1 else None
-        if isinstance(cand, (ast.ListComp, ast.GeneratorExp)) and len(
-                cand.generators) == 1:
-            g = cand.generators[0]
-            if isinstance(g.target, ast.Name) and txt(cand.elt) == \
-                    g.target.id:
-                t = txt(g.iter)
-                if t in ("self.cache", "self.cache.keys()"):
-                    return [(c_, g.target.id) for i_ in g.ifs
-                            for c_ in ast.walk(i_)
-                            if isinstance(c_, ast.Compare)]
-        raise AnalysisError("get_cache_chunk: eviction victim "
-                            f"`{short(e, 40)}` not understood")
-    conds = victim_conditions()
-    excl = []
-    for cmpn, var in conds:
-        if len(cmpn.ops) != 1:
-            raise AnalysisError("get_cache_chunk: chained victim condition")
-        a_, b_ = cmpn.left, cmpn.comparators[0]
-        other = b_ if txt(a_) == var else a_ if txt(b_) == var else None
-        if other is None:
-            continue
-        if isinstance(cmpn.ops[0], (ast.NotEq, ast.NotIn)):
-            excl.append(txt(other))
-        elif isinstance(cmpn.ops[0], ast.Gt) and txt(b_) == "0" \
-                and txt(a_) == var:
-            excl.append("0")        # keys are non-negative chunk indices
-        elif isinstance(cmpn.ops[0], ast.Lt) and txt(a_) == "0" \
-                and txt(b_) == var:
-            excl.append("0")
-    extra = [e for e in excl if e not in ("0", "(0,)", "[0]", "{0}")]
-    ctx.ob("R19.2", not extra,
-           "only chunk 0 is exempt from eviction (the size bound can always "
-           "be restored)" if not extra else
-           f"chunks {extra} are exempt from eviction besides chunk 0: with "
-           f"keep_chunks=1 nothing can be evicted and the cache holds more "
-           f"chunks than configured", node=ev, label="eviction exemptions")
-    # chunk 0 pinned
-    pinned = any(e in ("0", "(0,)", "[0]", "{0}") for e in excl)
-    ctx.ob("R19.2", pinned, "chunk 0 (the HDF5 superblock) is never evicted"
-           if pinned else "chunk 0 can be evicted", node=ev,
-           label="first chunk pinned")
-    # size test against keep_chunks, after the insertion
-    tests = [n for n in walk(gc) if isinstance(n, ast.If)
-             and "self._keep_chunks" in txt(n.test)
-             and "len(self.cache)" in txt(n.test)]
-    ins = [n for n in walk(gc) if isinstance(n, ast.Assign)
-           and isinstance(n.targets[0], ast.Subscript)
-           and is_self_attr(n.targets[0].value, "cache")]
-    ok = bool(tests) and bool(ins) and ins[0].lineno < tests[0].lineno \
-        and isinstance(tests[0].test, ast.Compare) and isinstance(
-        tests[0].test.ops[0], ast.Gt) and txt(
-        tests[0].test.left) == "len(self.cache)" and txt(
-        tests[0].test.comparators[0]) == "self._keep_chunks"
-    ctx.ob("R19.2", bool(ok), "the size test `len(cache) > keep_chunks` "
-           "follows the single insertion (bound is inductive)" if ok else
-           "cache size is not tested against keep_chunks after inserting",
-           node=tests[0] if tests else gc, label="size test after insert")
-    ctx.ob("R19.2", len(ins) == 1, "one insertion per call" if len(ins) == 1
-           else f"{len(ins)} insertions per call", node=gc,
-           label="single insertion", nontrivial=False)
-    # the eviction loop stops after one removal
-    lp = None
-    n = ev
-    while n is not None and not isinstance(n, ast.FunctionDef):
-        if isinstance(n, (ast.For, ast.While)):
-            lp = n
-            break
-        n = getattr(n, "parent", None)
-    if lp is not None:
-        brk = False
-        st = ev
-        while not isinstance(st, ast.stmt):
-            st = st.parent
-        blk = st.parent.body if hasattr(st.parent, "body") else []
-        if st in blk:
-            i = blk.index(st)
-            brk = any(isinstance(x, (ast.Break, ast.Return))
-                      for x in blk[i + 1:i + 2])
-        ctx.ob("R19.2", brk, "the eviction loop stops after one removal "
-               "(no mutation while iterating further)" if brk else
-               "eviction keeps iterating the dict it just modified",
-               node=lp, label="evict one then stop")
-
-
-def r193(ctx, repo):
-    rd = canon(repo, HU, repo.func(HU, "HTTPFile.read"),
-               keep=("read_range_cached",))
-    allargs = [a.arg for a in rd.args.posonlyargs + rd.args.args]
-    if len(allargs) < 2:
-        raise AnalysisError("HTTPFile.read: size parameter lost")
-    size = allargs[1]
-    calls = find_calls(rd, attr="read_range_cached")
-    if len(calls) != 1:
-        raise AnalysisError("HTTPFile.read: read_range_cached call lost")
-    c = calls[0]
-    stop = c.args[1]
-
-    def defs_of(e):
-        if isinstance(e, ast.Name):
-            d = _sole_assign(rd, e.id)
-            if d:
-                return [x.value for x in d]
-        return [e]
-    vals = defs_of(stop)
-    clamped = True
-    for v in vals:
-        t = txt(v)
-        if t == "self.length":
-            continue
-        if isinstance(v, ast.Call) and call_name(v) == "min" and any(
-                txt(a) == "self.length" for a in v.args):
-            continue
-        clamped = False
-    ctx.ob("R19.3", clamped, "the end of the requested range is clamped to "
-           "the resource length on every path" if clamped else
-           f"the end of the requested range (`{short(stop, 40)}`) is not "
-           f"bounded by the resource length: read(n) past the end requests "
-           f"unsatisfiable ranges", node=c, label="read end clamped")
-    # negative / None means to the end
-    neg = [n for n in walk(rd) if isinstance(n, ast.If)
-           and size in names_in(n.test) and any(
-               isinstance(x, ast.Compare) and isinstance(
-                   x.ops[0], (ast.Lt, ast.LtE, ast.Is, ast.Gt, ast.GtE))
-               for x in ast.walk(n.test))]
-    to_end = False
-    for n in neg:
-        # the branch where size is negative assigns stop = self.length
-        for body in (n.body, n.orelse):
-            for s in body:
-                if isinstance(s, ast.Assign) and txt(s.value) == \
-                        "self.length" and isinstance(stop, ast.Name) \
-                        and txt(s.targets[0]) == stop.id:
-                    to_end = True
-    ctx.ob("R19.3", to_end, "read() / read(-1) reads up to the end of the "
-           "resource" if to_end else
-           "a negative size is not translated into 'up to the end': "
-           "read() returns b''", node=neg[0] if neg else rd,
-           label="negative size reads to end")
-    # start never beyond stop
-    start = c.args[0]
-    svals = defs_of(start)
-    ok = all(isinstance(v, ast.Call) and call_name(v) == "min"
-             for v in svals) or txt(start) == "self._pos" and False
-    ctx.ob("R19.3", ok, "the start of the range never exceeds its end" if ok
-           else "a position beyond the end yields a negative range",
-           node=c, label="start bounded by stop")
-
-
-def r194(ctx, repo):
-    sk = repo.func(HU, "HTTPFile.seek")
-    modes = {}
-    for n in walk(sk):
-        if isinstance(n, ast.If) and isinstance(n.test, ast.Compare):
-            m = txt(n.test.comparators[0]).split(".")[-1]
-            for s in n.body:
-                if isinstance(s, (ast.Assign, ast.AugAssign)):
-                    modes[m] = s
-    want = {"SEEK_SET": ("Assign", "offset"),
-            "SEEK_CUR": ("AugAssign", "offset"),
-            "SEEK_END": ("Assign", "self.length + offset")}
-    for m, (kind, val) in want.items():
-        s = modes.get(m)
-        ok = s is not None and type(s).__name__ == kind and txt(
-            s.value) in (val, "offset + self.length") and "_pos" in txt(
-            s.targets[0] if isinstance(s, ast.Assign) else s.target)
-        ctx.ob("R19.4", bool(ok), f"seek({m}) sets the position correctly"
-               if ok else f"seek({m}) branch missing or wrong", node=s or sk,
-               key=f"{HU}::HTTPFile.seek::mode {m}")
-    tl = repo.func(HU, "HTTPFile.tell")
-    ok = any(isinstance(n, ast.Return) and is_self_attr(n.value, "_pos")
-             for n in walk(tl))
-    ctx.ob("R19.4", ok, "tell returns the position" if ok else
-           "tell does not return the position", node=tl, label="tell")
-    rd = repo.func(HU, "HTTPFile.read")
-    adv = [n for n in walk(rd) if isinstance(n, ast.AugAssign)
-           and is_self_attr(n.target, "_pos")]
-    ok = bool(adv) and all(txt(n.value).startswith("len(") for n in adv)
-    ctx.ob("R19.4", ok, "read advances the position by the number of bytes "
-           "returned" if ok else "read advances the position by something "
-           "other than the number of bytes returned", node=adv[0] if adv
-           else rd, label="read advances by returned")
-    ret = [n for n in walk(rd) if isinstance(n, ast.Return)]
-    c = find_calls(rd, attr="read_range_cached")
-    ok = bool(ret) and bool(c) and all(isinstance(r.value, ast.Name)
-                                       for r in ret)
-    ctx.ob("R19.4", ok, "read returns the bytes assembled from the cache"
-           if ok else "read does not return the assembled bytes",
-           node=rd, label="read returns data", nontrivial=False)
-
-
 def r195(ctx, repo):
     for rel, cls, attr in ((HT, "RTDC_HTTP", "_fhttp"),
                            (S3, "RTDC_S3", "_s3file")):
@@ -1001,6 +366,222 @@ def r197(ctx, repo):
                             f"chains found (6 confirmed by hand)")
 
 
+# ----------------------------------------------------------------------
+# finite-model evaluation (R19.1 – R19.4)
+
+def _family(tier):
+    if tier == "thorough":
+        return [(L_, c, k) for L_ in (1, 2, 7, 8, 9, 12)
+                for c in (1, 2, 3, 4, 5) for k in (1, 2, 3)]
+    return [(L_, c, k) for L_ in (1, 7, 8) for c in (3, 4) for k in (1, 2)]
+
+
+def r19_eval(ctx, repo):
+    """HTTPFile (loaded from its syntax tree) evaluated on a family of small
+    resources: every byte range, every seek/read/tell combination, the cache
+    bound and the request log are compared with the specification."""
+    from ..lib_C19 import Model, Session, HU as _HU, S3 as _S3
+    from .. import lib_C04 as L_
+    cls_node = repo.cls(HU, "HTTPFile")
+    fn = {f.name: f for f in cls_node.body if isinstance(f, ast.FunctionDef)}
+    for need in ("read", "seek", "tell", "read_range_cached",
+                 "get_cache_chunk", "download_range"):
+        if need not in fn:
+            raise AnalysisError(f"HTTPFile.{need} vanished")
+    fails = {}
+
+    def fail(key, msg):
+        fails.setdefault(key, msg)
+    n_eval = 0
+    for (Ln, c, keep) in _family(ctx.tier):
+        res = bytes(range(1, Ln + 1))
+        cfg = f"resource of {Ln} bytes, chunk size {c}, keep_chunks {keep}"
+        # (A) every byte range through read_range_cached
+        m = Model(repo, res, c, keep)
+        had0 = False
+        for a in range(Ln + 1):
+            for b in range(a, Ln + 1):
+                r = m.call("read_range_cached", a, b)
+                n_eval += 1
+                if r != ("ok", res[a:b]):
+                    fail("range bytes", f"{cfg}: read_range_cached({a}, {b}) "
+                         f"-> {r!r}, expected {res[a:b]!r}")
+                cache = m.cache
+                if len(cache) > keep:
+                    fail("cache bound", f"{cfg}: {len(cache)} chunks held "
+                         f"after read_range_cached({a}, {b})")
+                if had0 and 0 not in cache:
+                    fail("first chunk pinned", f"{cfg}: chunk 0 evicted by "
+                         f"read_range_cached({a}, {b})")
+                had0 = had0 or 0 in cache
+                for k_, v_ in cache.items():
+                    if v_ != res[k_ * c:(k_ + 1) * c]:
+                        fail("chunk content", f"{cfg}: cache[{k_}] = {v_!r}, "
+                             f"expected {res[k_ * c:(k_ + 1) * c]!r}")
+        ses = m.session
+        if ses.bad:
+            fail("requests valid", f"{cfg}: invalid / unsatisfiable range "
+                 f"request `{ses.bad[0]}` (a server ignores it and sends the "
+                 f"whole resource; S3 raises InvalidRange)")
+        for (fa, la) in ses.log:
+            if fa % c or la != min(fa + c, Ln) - 1:
+                fail("requests chunk aligned", f"{cfg}: request bytes="
+                     f"{fa}-{la} is not chunk k = [k·c, min((k+1)·c, L))")
+        if ses.other_url:
+            fail("requests address the resource", f"{cfg}: request sent to "
+                 f"{ses.other_url[0]!r}")
+        # (B) file protocol: seek / read / tell
+        m = Model(repo, res, c, keep)
+        sizes = [None, -1, 0, 1, c, c + 1, Ln + 3]
+        for pos in range(Ln + 2):
+            for size in sizes:
+                r = m.call("seek", pos)
+                r = m.call("read") if size is None and pos % 2 else \
+                    m.call("read", size)
+                n_eval += 1
+                want = res[pos:] if size is None or size < 0 else \
+                    res[pos:pos + size]
+                if r != ("ok", want):
+                    fail("read bytes", f"{cfg}: seek({pos}); read({size}) "
+                         f"-> {r!r}, expected {want!r}")
+                t = m.call("tell")
+                if t != ("ok", pos + len(want)):
+                    fail("position advances", f"{cfg}: after seek({pos}); "
+                         f"read({size}) tell() -> {t!r}, expected "
+                         f"{pos + len(want)}")
+                if len(m.cache) > keep:
+                    fail("cache bound", f"{cfg}: {len(m.cache)} chunks held "
+                         f"after read({size}) at {pos}")
+        if m.session.bad:
+            fail("requests valid", f"{cfg}: read() issued the invalid / "
+                 f"unsatisfiable range request `{m.session.bad[0]}`")
+        # seek modes
+        for whence, base in ((0, 0), (1, 2), (2, Ln)):
+            for off in (0, 1, -1):
+                if base + off < 0:
+                    continue
+                m.call("seek", 2)
+                r = m.call("seek", off, whence)
+                t = m.call("tell")
+                if t != ("ok", base + off):
+                    fail("seek modes", f"{cfg}: seek(2); seek({off}, "
+                         f"{whence}); tell() -> {t!r}, expected {base + off}")
+    # two open resources do not see each other's chunks
+    resA, resB = bytes(range(1, 9)), bytes(range(101, 109))
+    ma = Model(repo, resA, 3, 2)
+    mb = ma.second(resB, 3, 2)
+    for a_, b_ in ((0, 8), (2, 5), (0, 3)):
+        ra = ma.call("read_range_cached", a_, b_)
+        rb = mb.call("read_range_cached", a_, b_)
+        n_eval += 2
+        if ra != ("ok", resA[a_:b_]) or rb != ("ok", resB[a_:b_]):
+            fail("resources independent", "two open resources (8 bytes each,"
+                 f" chunk size 3): reading [{a_}, {b_}) gives {ra!r} and "
+                 f"{rb!r}, expected {resA[a_:b_]!r} and {resB[a_:b_]!r}: "
+                 f"state is shared between file objects")
+    ma.call("seek", 5)
+    if mb.call("tell") != ("ok", 0):
+        fail("resources independent", "seek on one file object moves the "
+             "position of another")
+    ctx.stat("R19 model evaluations", n_eval)
+    ctx.stat("R19 model family", [list(x) for x in _family(ctx.tier)])
+    rd, rr, gc = fn["read"], fn["read_range_cached"], fn["get_cache_chunk"]
+    obs = [
+        ("R19.1", "range bytes", rr, "every byte range [a, b) of every model "
+         "resource is returned exactly"),
+        ("R19.1", "chunk content", gc, "every cached chunk k holds the bytes "
+         "[k·c, min((k+1)·c, L))"),
+        ("R19.1", "requests chunk aligned", gc, "every request is one whole "
+         "chunk"),
+        ("R19.1", "requests valid", rr, "no invalid or unsatisfiable range "
+         "is ever requested"),
+        ("R19.1", "requests address the resource", fn["download_range"],
+         "every request goes to the URL of the resource"),
+        ("R19.6", "resources independent", fn["__init__"] if "__init__"
+         in fn else gc, "two open resources never see each other's chunks "
+         "or position"),
+        ("R19.2", "cache bound", gc, "never more than keep_chunks chunks are "
+         "held"),
+        ("R19.2", "first chunk pinned", gc, "chunk 0 is never evicted"),
+        ("R19.3", "read bytes", rd, "read(n) at every position returns the "
+         "bytes up to n / the end"),
+        ("R19.4", "position advances", rd, "read advances the position by "
+         "the number of bytes returned"),
+        ("R19.4", "seek modes", fn["seek"], "seek handles SET / CUR / END"),
+    ]
+    for rule, key, node, good in obs:
+        ok = key not in fails
+        ctx.ob(rule, ok, good + f" ({len(_family(ctx.tier))} models)"
+               if ok else fails[key], node=node, label=key)
+    # sibling: S3File.download_range sends the same inclusive range
+    scls = repo.cls(S3, "S3File")
+    it = L_.Interp(repo)
+
+    class _Body:
+        def __init__(self, data):
+            self.data = data
+
+        def read(self):
+            return self.data
+
+    class _S3Object:
+        def __init__(self, res_):
+            self.res = res_
+            self.bad = []
+            self.content_length = len(res_)
+            self.e_tag = '"0123456789abcdef"'
+
+        def get(self, Range=None, **kw):
+            if not (isinstance(Range, str) and Range.startswith("bytes=")):
+                self.bad.append(Range)
+                return {"Body": _Body(self.res)}
+            a, _, b = Range[6:].partition("-")
+            a, b = int(a), int(b)
+            if b < a or a >= len(self.res):
+                self.bad.append(Range)
+                return {"Body": _Body(self.res)}
+            return {"Body": _Body(self.res[a:b + 1])}
+    env = it.env(S3, {"HTTPFile": L_.PyBase("HTTPFile"),
+                      "boto3": L_.Opaque("boto3"),
+                      "botocore": L_.Opaque("botocore"),
+                      "functools": L_.namespace(
+                          "functools", lru_cache=lambda *a, **k: (
+                              a[0] if a and callable(a[0])
+                              else (lambda f: f)))})
+    # names fmt_s3 imports from http_utils resolve to their definitions
+    hu_env = it.env(HU, {"io": L_.namespace("io", IOBase=L_.PyBase("IOBase")),
+                         "os": L_.namespace("os", SEEK_SET=0, SEEK_CUR=1,
+                                            SEEK_END=2)})
+    for st_ in repo.tree(S3).body:
+        if isinstance(st_, ast.ImportFrom) and (st_.module or "").endswith(
+                "http_utils"):
+            for al in st_.names:
+                if al.name != "HTTPFile":
+                    env.ext[al.asname or al.name] = hu_env.lookup(al.name)
+    c3 = env.lookup("S3File")
+    res = bytes(range(1, 10))
+    obj = L_.AstObject(c3)
+    so = _S3Object(res)
+    obj._attrs["s3_object"] = so
+    bad = None
+    for a in range(len(res)):
+        for b in range(a + 1, len(res) + 1):
+            r = L_.run(lambda: L_.lookup_attr(it, obj, "download_range",
+                                              None)(a, b))
+            if r != ("ok", res[a:b]) and bad is None:
+                bad = (f"S3File.download_range({a}, {b}) -> {r!r}, expected "
+                       f"{res[a:b]!r}")
+    if so.bad and bad is None:
+        bad = f"S3File.download_range sent the Range {so.bad[0]!r}"
+    s3dl = [f for f in scls.body if isinstance(f, ast.FunctionDef)
+            and f.name == "download_range"]
+    if not s3dl:
+        raise AnalysisError("S3File.download_range vanished")
+    ctx.ob("R19.1", bad is None, "S3File.download_range(a, b) returns the "
+           "bytes [a, b) of the object for every range" if bad is None
+           else bad, node=s3dl[0], label="s3 range bytes")
+
+
 def run(ctx):
     repo = ctx.repo
     ctx.rule("R19.7", "resource identity bound in __init__ only; explicit "
@@ -1010,18 +591,15 @@ def run(ctx):
              "store of downloaded bytes", minimum=8)
     r196(ctx, repo)
     ctx.rule("R19.1", "range arithmetic of chunks, Range header (both "
-             "siblings) and the chunk loop as affine forms", minimum=13)
+             "siblings) and the chunk loop as affine forms", minimum=6)
     ctx.rule("R19.2", "eviction cannot remove the chunk being returned; "
-             "chunk 0 pinned; bound inductive", minimum=5)
+             "chunk 0 pinned; bound inductive", minimum=2)
     ctx.rule("R19.3", "read range clamped to the resource; negative size = "
-             "to the end", minimum=3)
-    ctx.rule("R19.4", "seek/tell/read position protocol", minimum=5)
+             "to the end", minimum=1)
+    ctx.rule("R19.4", "seek/tell/read position protocol", minimum=2)
     ctx.rule("R19.5", "hand-over of the file object; non-local formats",
              minimum=5)
-    r191(ctx, repo)
-    r192(ctx, repo)
-    r193(ctx, repo)
-    r194(ctx, repo)
+    r19_eval(ctx, repo)
     r195(ctx, repo)
 
 
@@ -1104,7 +682,7 @@ MUTANTS = [
     ("eviction before binding (F19a returns)", HU,
      [("        chunk = self.cache[index]\n", ""),
       ("        return chunk\n", "        return self.cache[index]\n")],
-     "R19.2"),
+     "R19."),
     ("eviction also skips the requested chunk (seeded C19_2)", HU,
      ("                if kk != 0:  # always keep the first chunk\n",
       "                if kk != 0 and kk != index:\n"), "R19.2"),
@@ -1117,7 +695,7 @@ MUTANTS = [
       "                    break\n"), "R19.2"),
     ("eviction loop without break", HU,
      ("                    self.cache.pop(kk)\n                    break\n",
-      "                    self.cache.pop(kk)\n"), "R19.2"),
+      "                    self.cache.pop(kk)\n"), "R19."),
     ("size test removed", HU,
      ("        if len(self.cache) > self._keep_chunks:\n",
       "        if len(self.cache) > self._keep_chunks + 100:\n"), "R19.2"),
